@@ -436,4 +436,37 @@ BINDINGS = [
          theorem="smChartGetItem_eq", properties=["C18"], imports=["Simfile.Model.Views", "Simfile.Model.Convert"],
          names={"SM_CHART_PROPERTIES": "T.smChartProperties"}, raises={"KeyError": "CErr.keyError"},
          calls={"getattr": "(attrGet Kind.smChart {0} {1})"}, methods={"lower": "(lower {self})"}),
+
+    # ---- which object the timing comes from (C15) and what TimingData reads from it (C14, C15). A simfile or chart is a
+    # (kind, dictionary) pair as in Model/Source.lean; `chart=None` is `none`
+    dict(file="simfile/timing/_private/timingsource.py", qual="timing_source", module="Source", lean="timingSource", ret_mode="except",
+         state_params=[("sim", "Src"), ("chart", "Option Src")], params=[], ignore_params=["simfile", "chart"],
+         ret="Except SErr (Option Src)", model="timingSource (the chosen object)", theorem="timingSource_eq", properties=["C15"],
+         imports=["Simfile.Model.Source", "Simfile.Gen.PySource"],
+         names={"isinstance(simfile, SSCSimfile)": "(sim.kind = Kind.sscSimfile)", "isinstance(chart, SSCChart)": "(Py.chartIs chart Kind.sscChart = true)",
+                "chart": "chart", "simfile": "(some sim)", "CHART_TIMING_PROPERTIES": "T.chartTimingProperties",
+                "SSC_VERSION_SPLIT_TIMING": "((T.sscVersionSplitTimingNum : Rat) / (T.sscVersionSplitTimingDen : Rat))"},
+         exprs={"simfile.version": "(attrGet Kind.sscSimfile sim.d ['v','e','r','s','i','o','n'])"},
+         value_or={"simfile.version": "(Py.strOr {0} {1})"},
+         raising_calls={"float": "(Py.pyFloat {0})"},
+         # the eleven properties are the generated list of their keys; reading one through its descriptor is attrGet on the chart
+         calls={"timing_prop.__get__": "(attrGet Kind.sscChart (Py.chartDict {0}) (chartAttrOfKey timing_prop))"},
+         truthy={"timing_prop.__get__()": "(truthy {0} = true)", "any()": "({0} = true)"}),
+    dict(file="simfile/timing/__init__.py", qual="TimingData.__init__", module="Source", lean="timingDataInit", ret_mode="except",
+         state_params=[("sim", "Src"), ("chart", "Option Src")], params=[], ignore_params=["self", "simfile", "chart"],
+         ret="Except SErr TDStrings", model="timingData", theorem="timingDataInit_eq", properties=["C14", "C15"],
+         imports=["Simfile.Model.Source", "Simfile.Gen.PySource"],
+         fallthrough="(Except.ok ({ bpms := bpms, stops := stops, delays := delays, warps := warps, offset := offset } : TDStrings))",
+         names={"simfile": "sim", "chart": "chart"},
+         raising_calls={"timing_source": "(Except.map (fun py_o => py_o.getD sim) (Simfile.GenCode.timingSource {0} {1}))"},
+         exprs={"simfile_or_chart.bpms": "(attrGet simfile_or_chart.kind simfile_or_chart.d ['b','p','m','s'])",
+                "simfile_or_chart.stops": "(attrGet simfile_or_chart.kind simfile_or_chart.d ['s','t','o','p','s'])",
+                "simfile_or_chart.delays": "(attrGet simfile_or_chart.kind simfile_or_chart.d ['d','e','l','a','y','s'])",
+                "simfile_or_chart.offset": "(attrGet simfile_or_chart.kind simfile_or_chart.d ['o','f','f','s','e','t'])"},
+         value_or={"simfile_or_chart.offset": "(Py.strOrInt {0} {1})"},
+         # the parsers answer `none` where Python raises (the model carries that per field); Decimal(x or 0)
+         calls={"BeatValues.from_str": "(beatValuesFromStr {0})", "Decimal": "(Py.decimalOf {0})"},
+         methods={"get": "(({self}).d.get? {0}).join"},
+         mutations={"self.bpms=": ("bpms", "{value}"), "self.stops=": ("stops", "{value}"), "self.delays=": ("delays", "{value}"),
+                    "self.warps=": ("warps", "{value}"), "self.offset=": ("offset", "{value}")}),
 ]
